@@ -27,6 +27,7 @@ type nullTransport struct {
 	sent     [][]byte
 	sentTo   []string
 	dialer   func(addr string) (net.Conn, error)
+	failTo   string // writes to this address fail with a local error
 }
 
 func newNullTransport() *nullTransport {
@@ -36,6 +37,9 @@ func (t *nullTransport) FinalAdvertiseAddr(ip string, port int) (net.IP, int, er
 	return net.ParseIP(ip).To4(), port, nil
 }
 func (t *nullTransport) WriteTo(b []byte, addr string) (time.Time, error) {
+	if t.failTo != "" && addr == t.failTo {
+		return time.Time{}, fmt.Errorf("write udp: network is unreachable")
+	}
 	t.mu.Lock()
 	t.sent = append(t.sent, append([]byte(nil), b...))
 	t.sentTo = append(t.sentTo, addr)
